@@ -257,6 +257,70 @@ func runC17(c *Ctx) {
 		}
 	}
 
+	// ---- C17.token: the search for the first start mark looks at every offset of the pending data, from 0, one by one
+	if fm := P.Func("json", "firstMatch"); R.Anchor(fm != nil, "C17.token", "json.firstMatch") {
+		okScan, why := false, "firstMatch does not test the marks against data[i:] for a scan position i"
+		core.EachInstr(fm, func(in ssa.Instruction) {
+			call, ok := in.(*ssa.Call)
+			if !ok || call.Call.StaticCallee() == nil || core.FullName(call.Call.StaticCallee()) != "bytes.HasPrefix" {
+				return
+			}
+			sl, ok := core.StripConv(call.Call.Args[0]).(*ssa.Slice)
+			if !ok || sl.Low == nil || sl.High != nil || sl.X != ssa.Value(fm.Params[0]) {
+				return
+			}
+			// the position: a range index over data (starts at 0, step 1) or a counter phi(0, i+1)
+			idx := sl.Low
+			start, step := int64(-99), int64(0)
+			if bo, isB := idx.(*ssa.BinOp); isB && bo.Op == token.ADD { // range: i = phi(-1, i) + 1
+				if phi, isPhi := bo.X.(*ssa.Phi); isPhi {
+					if k, isK := core.ConstInt(bo.Y); isK && k == 1 {
+						for _, e := range phi.Edges {
+							if c, isC := core.ConstInt(e); isC {
+								start = c + 1
+							} else if e == ssa.Value(bo) {
+								step = 1
+							}
+						}
+					}
+				}
+			}
+			if phi, isPhi := idx.(*ssa.Phi); isPhi {
+				for _, e := range phi.Edges {
+					if c, isC := core.ConstInt(e); isC {
+						start = c
+					} else if d, ok := constAdvance(e, phi, nil, 0); ok {
+						step = d
+					}
+				}
+			}
+			if start == 0 && step == 1 {
+				okScan = true
+			} else {
+				why = fmt.Sprintf("the scan for a start mark begins at offset %d and moves by %d (expected 0 and 1)", start, step)
+			}
+		})
+		R.Check(okScan, "C17.token", "json|firstMatch|scans-every-offset-from-0", P.Pos(fm.Pos()),
+			"every offset of the pending data, starting with 0, is tested for a start mark",
+			why+": a comment or string that begins exactly where the previous token ended (\"b\"/*c*/, two comments in a row, a document starting with a comment) is not recognised", nil)
+	}
+
+	// ---- C17.token: bufio.Scanner refuses tokens longer than 64 KiB unless Buffer() raises the limit; the reader's tokens
+	// are whole strings, whole comments and whole runs of text between two marks
+	if ncr := P.Func("json", "NewCommentReader"); R.Anchor(ncr != nil, "C17.token", "json.NewCommentReader") {
+		raised := false
+		core.EachInstr(ncr, func(in ssa.Instruction) {
+			if call, ok := in.(*ssa.Call); ok && call.Call.StaticCallee() != nil && core.FullName(call.Call.StaticCallee()) == "(*bufio.Scanner).Buffer" {
+				if k, isK := core.ConstInt(call.Call.Args[2]); isK && k >= 1<<30 {
+					raised = true
+				}
+			}
+		})
+		R.Check(raised, "C17.token", "json|NewCommentReader|scanner-token-limit-raised", P.Pos(ncr.Pos()),
+			"the scanner's token limit is raised, so long strings, comments and mark-free runs pass",
+			"the scanner keeps bufio's default 64 KiB token limit: a document with a string literal, a comment or a run without quotes and comment marks of 65536 bytes or more fails with 'bufio.Scanner: token too long' instead of decoding to its value", nil)
+	}
+
 	// ---- C17.escape
 	reach := P.Reachable(split)
 	found := ""
@@ -284,6 +348,82 @@ func runC17(c *Ctx) {
 				}
 			}
 		})
+	}
+	// the backslash escapes the byte after it whatever that byte is (JSON: \\ is one escaped backslash, so in "C:\\" the
+	// quote after it closes the string): on the branch taken for a backslash the scan position moves on by two with no
+	// further test on the way back to the loop head
+	for fn := range reach {
+		if fn.Blocks == nil {
+			continue
+		}
+		for _, b := range fn.Blocks {
+			if len(b.Instrs) == 0 {
+				continue
+			}
+			iff, ok := b.Instrs[len(b.Instrs)-1].(*ssa.If)
+			if !ok {
+				continue
+			}
+			bo, ok := iff.Cond.(*ssa.BinOp)
+			if !ok || (bo.Op != token.EQL && bo.Op != token.NEQ) {
+				continue
+			}
+			k, isK := core.ConstInt(bo.Y)
+			if !isK || k != 0x5c {
+				continue
+			}
+			taken := b.Succs[0]
+			if bo.Op == token.NEQ {
+				taken = b.Succs[1]
+			}
+			// walk the straight line from the branch to a loop header, summing the constant increments of the index
+			skipOK := false
+			why := "the backslash branch does not return straight to the loop head"
+			cur := taken
+			env := map[ssa.Value]ssa.Value{} // phis of the blocks passed on the way, resolved along this path
+			for steps := 0; steps < 6 && cur != nil; steps++ {
+				if len(cur.Succs) != 1 {
+					why = "another condition is tested on the backslash branch at " + P.InstrPos(cur.Instrs[len(cur.Instrs)-1]) + " before the position advances (the escape is honoured only in some contexts)"
+					break
+				}
+				next := cur.Succs[0]
+				if next.Dominates(cur) { // back edge: next is the loop head
+					for _, in := range next.Instrs {
+						phi, isPhi := in.(*ssa.Phi)
+						if !isPhi {
+							break
+						}
+						for i, pr := range next.Preds {
+							if pr != cur {
+								continue
+							}
+							if d, ok := constAdvance(phi.Edges[i], phi, env, 0); ok && d == 2 {
+								skipOK = true
+							}
+						}
+					}
+					if !skipOK {
+						why = "the scan position does not advance by two (the backslash and the byte it escapes) on the backslash branch"
+					}
+					break
+				}
+				for _, in := range next.Instrs {
+					phi, isPhi := in.(*ssa.Phi)
+					if !isPhi {
+						break
+					}
+					for i, pr := range next.Preds {
+						if pr == cur {
+							env[phi] = phi.Edges[i]
+						}
+					}
+				}
+				cur = next
+			}
+			R.Check(skipOK, "C17.escape", "json|"+core.FuncName(fn)+"|backslash-skips-the-next-byte-unconditionally", P.InstrPos(iff),
+				"a backslash makes the scan skip the byte after it, whatever it is",
+				why+": an escaped backslash before the closing quote (\"C:\\\\\") leaves the string open and the rest of the document is mis-scanned", nil)
+		}
 	}
 	sort.Strings(names)
 	R.Check(found != "", "C17.escape", "json|NewCommentReader$1|backslash-examined", P.Pos(split.Pos()),
@@ -427,4 +567,26 @@ func checkSplit(c *Ctx, split *ssa.Function) {
 	})
 	R.Check(okLeft, "C17.token", "json|NewCommentReader$1|search-after-start", P.Pos(split.Pos()),
 		"the end marker is searched in data[pos+len(start):]", "the end marker is not searched in the bytes following the start marker", nil)
+}
+
+
+// constAdvance: v = phi + d for a constant d, through a chain of constant additions.
+func constAdvance(v ssa.Value, phi *ssa.Phi, env map[ssa.Value]ssa.Value, depth int) (int64, bool) {
+	if v == ssa.Value(phi) {
+		return 0, true
+	}
+	if depth > 8 {
+		return 0, false
+	}
+	if r, ok := env[v]; ok {
+		return constAdvance(r, phi, env, depth+1)
+	}
+	if bo, ok := v.(*ssa.BinOp); ok && bo.Op == token.ADD {
+		if k, isK := core.ConstInt(bo.Y); isK {
+			if d, ok := constAdvance(bo.X, phi, env, depth+1); ok {
+				return d + k, true
+			}
+		}
+	}
+	return 0, false
 }
